@@ -63,18 +63,20 @@ Section SafeDef.
 Variable A : Type.
 Inductive Safe (Q : ghost -> A -> Prop) : ghost -> prog A -> Prop :=
 | SafeRet w v : Q w v -> Safe Q w (Ret v)
-| SafeDo w o k : (o = ORemove PDir -> win w = true) -> (forall r, Safe Q (upd w o r) (k r)) -> Safe Q w (Do o k).
+| SafeDo w o k : (o = ORemove PDir -> win w = true) -> (forall r, Safe Q (upd w o r) (k r)) -> Safe Q w (Do o k)
+| SafeChk w k : Safe Q w k -> Safe Q w (Chk k).
 End SafeDef.
 Arguments Safe {A} Q _ _.
 Arguments SafeRet {A Q} w v _.
 Arguments SafeDo {A Q} w o k _ _.
+Arguments SafeChk {A Q} w k _.
 
 Lemma Safe_weaken {A} (Q Q' : ghost -> A -> Prop) w p : (forall w' a, Q w' a -> Q' w' a) -> Safe Q w p -> Safe Q' w p.
 Proof. intros HQ H. induction H; constructor; auto. Qed.
 
 Lemma Safe_bind {A B} (Q1 : ghost -> A -> Prop) (Q : ghost -> B -> Prop) w p (f : A -> prog B) :
   Safe Q1 w p -> (forall w' a, Q1 w' a -> Safe Q w' (f a)) -> Safe Q w (bind p f).
-Proof. intros H Hf. induction H; simpl; [auto|]. constructor; auto. Qed.
+Proof. intros H Hf. induction H; simpl; [auto| |]; constructor; auto. Qed.
 
 (* ghosts only move forward: mk is kept, an open window stays open (as long as no Mkdir is attempted) *)
 Definition le (w w' : ghost) : Prop := mk w' = mk w /\ (win w = true -> win w' = true).
@@ -251,8 +253,8 @@ Lemma try_lock_eq fuel ovr wt : try_lock fuel ovr wt =
                 s2 <- is_stale ;;
                 if s2 then
                   if wt then Ret ACancelled
-                  else (_ <- unlock ;; try_lock f ovr wt)
-                else try_lock f ovr wt
+                  else (_ <- unlock ;; Chk (try_lock f ovr wt))
+                else Chk (try_lock f ovr wt)
             end
           else Ret AStale
         else Ret ALocked
@@ -273,9 +275,9 @@ Proof.
     destruct s; [|apply Hne; discriminate].
     destruct ovr; [|apply Hne; discriminate].
     eapply Safe_bind; [apply safe_is_stale|]. cbv beta. intros w'' s2 [_ Hs2].
-    destruct s2; [|apply IH].
+    destruct s2; [|constructor; apply IH].
     destruct wt; [apply Hne; discriminate|].
-    eapply Safe_bind; [apply (ROW_unlock_attempts 10 w'' w'' (Hs2 eq_refl) (le_refl w''))|]. cbv beta. intros w3 _ _. apply IH.
+    eapply Safe_bind; [apply (ROW_unlock_attempts 10 w'' w'' (Hs2 eq_refl) (le_refl w''))|]. cbv beta. intros w3 _ _. constructor. apply IH.
 Qed.
 
 Lemma safe_unlock w : win w = true -> Safe (fun _ _ => True) w unlock.
@@ -312,10 +314,10 @@ Inductive mstep (s : state) (c : nat) (stale : bool) (s' : state) : Prop :=
     (Hx : nth_error (cs s) c = Some x)
     (Hcur : cur x = Some (a, Do o k))
     (Hsem : sem c (ngen s) stale (fs s) o = (f', r))
-    (Hx2 : let x1 := {| ovr := ovr x; cur := Some (a, k r); holds := holds x; alive := alive x;
+    (Hx2 : let x1 := {| ovr := ovr x; cur := Some (a, nxt a (k r)); holds := holds x; alive := alive x;
                         eng := (match o, r with OMkdir, ROk => Some (ngen s) | _, _ => eng x end);
                         hbs := hbs x; gh := upd (gh x) o r |} in
-           (x2, ret) = match k r with Ret v => finish x1 a v | _ => (x1, None) end)
+           (x2, ret) = match nxt a (k r) with Ret v => finish x1 a v | _ => (x1, None) end)
     (Hfs : fs s' = f')
     (Hbad : bad s' = bad s || ((match o, r with ORemove PDir, ROk => true | _, _ => false end) && live_owner (fs s) (cs s)))
     (Hcs : cs s' = set_nth (cs s) c x2).
@@ -323,10 +325,10 @@ Inductive mstep (s : state) (c : nat) (stale : bool) (s' : state) : Prop :=
 Lemma exec_main_inv s c stale s' ob : exec s (IStep c None stale) = Some (s', ob) -> mstep s c stale s'.
 Proof.
   unfold exec. destruct (nth_error (cs s) c) as [x|] eqn:Hx; [|discriminate].
-  destruct (cur x) as [[a p]|] eqn:Hcur; [|discriminate]. destruct p as [v|o k]; [discriminate|].
+  destruct (cur x) as [[a p]|] eqn:Hcur; [|discriminate]. destruct p as [v|o k|k0]; [discriminate| |discriminate].
   destruct (sem c (ngen s) stale (fs s) o) as [f' r] eqn:Hsem.
-  match goal with |- context [match k r with Ret v => finish ?X a v | Do _ _ => (?Y, None) end] =>
-    destruct (match k r with Ret v => finish X a v | Do _ _ => (Y, None) end) as [x2 ret] eqn:Hx2 end.
+  match goal with |- context [match nxt a (k r) with Ret v => finish ?X a v | Do _ _ => (?Y, None) | Chk _ => _ end] =>
+    destruct (match nxt a (k r) with Ret v => finish X a v | Do _ _ => (Y, None) | Chk _ => (Y, None) end) as [x2 ret] eqn:Hx2 end.
   intros H. inversion H; subst; clear H.
   eapply MStep with (x2 := x2) (ret := ret); eauto; simpl.
   all: try (rewrite <- Hx2; destruct o; try reflexivity; destruct r; reflexivity).
@@ -340,16 +342,17 @@ Lemma mstep_x2 s c stale s' : mstep s c stale s' ->
     bad s' = bad s || ((match o, r with ORemove PDir, ROk => true | _, _ => false end) && live_owner (fs s) (cs s)) /\
     alive x2 = alive x /\ ovr x2 = ovr x /\ gh x2 = upd (gh x) o r /\
     eng x2 = (match o, r with OMkdir, ROk => Some (ngen s) | _, _ => eng x end) /\
-    (holds x2 = holds x \/ (holds x2 = true /\ is_acquire a = true /\ k r = Ret AOk)) /\
-    (cur x2 = None \/ (cur x2 = Some (a, k r)) \/ (cur x2 = Some (a, prog_of a (ovr x)) /\ is_acquire a = true)).
+    (holds x2 = holds x \/ (holds x2 = true /\ is_acquire a = true /\ nxt a (k r) = Ret AOk)) /\
+    (cur x2 = None \/ (cur x2 = Some (a, nxt a (k r))) \/ (cur x2 = Some (a, prog_of a (ovr x)) /\ is_acquire a = true)).
 Proof.
   intros [x a o k f' r x2 ret Hx Hcur Hsem Hx2 Hfs Hbad Hcs].
   exists x, a, o, k, r, x2. subst f'. repeat (split; [assumption|]).
-  cbv zeta in Hx2. destruct (k r) as [v|o' k'] eqn:Hk.
+  cbv zeta in Hx2. destruct (nxt a (k r)) as [v|o' k'|k'] eqn:Hk.
   - symmetry in Hx2. apply finish_props in Hx2. simpl in Hx2.
     destruct Hx2 as (He & Ha & Hg & Ho & Hh & Hc). repeat (split; [assumption|]). split.
     + destruct Hh as [Hh|(Hh & Hacq & Hv)]; [left; exact Hh|right; subst v; auto].
     + destruct Hc as [Hc|[Hc Hacq]]; [left; exact Hc|right; right; auto].
+  - inversion Hx2; subst; simpl. repeat (split; [reflexivity|]). split; [left; reflexivity|right; left; reflexivity].
   - inversion Hx2; subst; simpl. repeat (split; [reflexivity|]). split; [left; reflexivity|right; left; reflexivity].
 Qed.
 
@@ -428,6 +431,13 @@ Lemma Safe_Do_inv {A} (Q : ghost -> A -> Prop) w o k :
   Safe Q w (Do o k) -> (o = ORemove PDir -> win w = true) /\ forall r, Safe Q (upd w o r) (k r).
 Proof. intros H. inversion H; subst. auto. Qed.
 
+Lemma Safe_nxt a w p : Safe (Qof a) w p -> Safe (Qof a) w (nxt a p).
+Proof.
+  unfold nxt. intros H. induction H; simpl; try (constructor; assumption).
+  destruct (expired a) eqn:E; [|assumption].
+  destruct a; try discriminate E. constructor. unfold Qof. simpl. unfold Qacq. discriminate.
+Qed.
+
 Lemma Inv_mstep s c st s' : Inv s -> mstep s c st s' -> Inv s'.
 Proof.
   intros (Hex & Hhe & Hps) Hm.
@@ -462,12 +472,12 @@ Proof.
     intros c' x' Hx' Hh'. rewrite Hcs in Hx'. apply nth_set_nth in Hx' as [[<- ->]|[Hne Hx']]; [|eauto].
     destruct Hho as [Hho|(_ & Hacq & Hret)].
     + rewrite Hho in Hh'. specialize (Hhe c x Hx Hh'). rewrite Heng. destruct o; auto. destruct r; auto. discriminate.
-    + apply Hmk2; [|exact Hacq]. specialize (Hsafe r). rewrite Hret in Hsafe. inversion Hsafe; subst.
+    + apply Hmk2; [|exact Hacq]. specialize (Hsafe r). apply Safe_nxt in Hsafe. rewrite Hret in Hsafe. inversion Hsafe; subst.
       unfold Qof in *. rewrite Hacq in *. rewrite Hgh. auto.
   - (* progs_safe *)
     intros c' x' a' p' Hx' Hcur'. rewrite Hcs in Hx'. apply nth_set_nth in Hx' as [[<- ->]|[Hne Hx']]; [|eauto].
     destruct Hcu as [Hcu|[Hcu|[Hcu Hacq]]]; rewrite Hcu in Hcur'; [discriminate| |]; inversion Hcur'; subst; clear Hcur'.
-    + split; [rewrite Hgh; apply Hsafe|auto].
+    + split; [rewrite Hgh; apply Safe_nxt, Hsafe|auto].
     + split; [apply safe_prog_of_acquire; exact Hacq|auto].
 Qed.
 
